@@ -446,7 +446,7 @@ var (
 
 func needles() []string {
 	fragileOnce.Do(func() {
-		for _, id := range vkit.UserIDs {
+		for _, id := range vkit.AllUserIDs {
 			u := vkit.Users[id]
 			piiNeedles = append(piiNeedles, u.Email, u.Phone, "town-of-"+u.ID)
 		}
